@@ -152,3 +152,312 @@ Qed.
 
 Lemma iou_update_inactive st es : (seg st = None \/ iou_act (ft st) = false) -> iou_update_edges st es = st.
 Proof. unfold iou_update_edges. intros [H|H]; [now rewrite H|]. destruct (seg st); [now rewrite H|reflexivity]. Qed.
+
+(* ================================================================== *)
+(* AddNode with pixels                                                  *)
+(* ================================================================== *)
+Lemma sane_mask_other st sg t idx v n m : frame_ok sg t = true -> nodes_sane st sg -> only_touches sg t idx n ->
+  is_node st m -> m <> n -> m <> v ->
+  mask_of (paint_arr sg t idx v) (time_of st m) m = mask_of sg (time_of st m) m.
+Proof.
+  intros Hf Hsane Ht Hm Hmn Hmv. destruct (Hsane m Hm) as [Hm0 Hfm].
+  eapply mask_of_paint_other; eauto. apply frame_ok_range in Hfm. lia.
+Qed.
+
+Lemma fresh_add_node st n a t idx b st' sg :
+  do_add_node st n a (Some (t, idx)) = Ok b st' -> seg st = Some sg ->
+  ~ is_node st n -> n <> 0 -> NoDup (keys a) -> lookup KTime a = Some (VZ t) -> ~ In KTime (rp_act (ft st)) ->
+  hits sg t idx -> nodes_sane st sg -> only_touches sg t idx n ->
+  (rp_fresh st -> rp_fresh st') /\ (edges_sane st -> iou_fresh st -> iou_fresh st').
+Proof.
+  intros Hdo Hs Hn Hn0 Hnd Hl Hkt Hhit Hsane Htouch.
+  apply do_add_node_ok in Hdo. destruct Hdo as (st1 & Hsp & Hg & Hsg' & Hft').
+  apply set_pixels_ok in Hsp. destruct Hsp as (sg0 & Hs0 & Hfok & ->). rewrite Hs in Hs0. injection Hs0 as <-. cbn [fst snd] in *.
+  set (sg' := paint_arr sg t idx n) in *. set (s1 := upd_seg st (Some sg')) in *.
+  assert (Hn1 : ~ is_node s1 n) by exact Hn.
+  destruct (add_node_core_spec s1 n a Hn1) as (C1 & C2 & C3 & C4 & C5 & C6 & C7).
+  assert (Hseg : seg st' = Some sg') by (rewrite Hsg', C1; reflexivity).
+  assert (Hft : ft st' = ft st) by (rewrite Hft', C2; reflexivity).
+  assert (HN : forall m, is_node st' m <-> m = n \/ is_node st m) by (intros m; rewrite (is_node_g _ _ m Hg); apply C3).
+  assert (HA : forall m k, m <> n -> attr st' m k = attr st m k) by (intros m k Hm; rewrite (attr_g _ _ m k Hg); now apply C4).
+  assert (HT : forall m, m <> n -> time_of st' m = time_of st m) by (intros m Hm; apply time_of_attr; now apply HA).
+  assert (HTn : time_of st' n = t).
+  { rewrite (time_of_g _ _ n Hg). unfold time_of, zattr. rewrite (C5 KTime (VZ t)); auto. }
+  assert (HM : forall m, is_node st m -> mask_of sg' (time_of st m) m = mask_of sg (time_of st m) m).
+  { intros m Hm. assert (m <> n) by (intros ->; contradiction). eapply sane_mask_other; eauto. }
+  split.
+  - intros Hrp. unfold rp_fresh in *. rewrite Hseg. rewrite Hs in Hrp. rewrite Hft. intros m k Hm Hk.
+    apply HN in Hm. destruct Hm as [->|Hm].
+    + rewrite (attr_g _ _ n k Hg), HTn. rewrite (C6 sg' t eq_refl Hnd Hl Hkt k Hk).
+      assert (Hne : mask_of sg' t n <> []).
+      { apply mask_nonempty. destruct Hhit as (i & Hi & Hin). exists i.
+        destruct (paint_same_shape sg t idx n) as [_ Sh]. split; [unfold sg'; now rewrite Sh|].
+        unfold sg'. rewrite label_at_paint; try (apply frame_ok_range in Hfok; lia).
+        apply memz_In in Hin. apply Nat.ltb_lt in Hi. now rewrite Z.eqb_refl, Hin, Hi. }
+      destruct (mask_of sg' t n); [congruence|reflexivity].
+    + assert (m <> n) by (intros ->; contradiction). rewrite HA, HT, HM by assumption. now apply Hrp.
+  - intros Hes Hio. unfold iou_fresh in *. rewrite Hseg. rewrite Hs in Hio. rewrite Hft. intros Hact u v He.
+    assert (Hadj : forall x, adj st' x = adj st x) by (intros x; rewrite (adj_g _ _ x Hg); apply C7).
+    assert (He0 : edge st u v) by (unfold edge, has_edge in *; now rewrite <- Hadj).
+    destruct (Hes u v He0) as [Hu Hv].
+    assert (u <> n) by (intros ->; contradiction). assert (v <> n) by (intros ->; contradiction).
+    unfold edge_attrs. rewrite Hadj. fold (edge_attrs st u v). rewrite (Hio Hact u v He0). f_equal.
+    symmetry. apply iou_of_ext; auto.
+Qed.
+
+(* ================================================================== *)
+(* UpdateNodeSeg                                                        *)
+(* ================================================================== *)
+Lemma has_edge_succs a b u v : succs (g a) = succs (g b) -> has_edge a u v = has_edge b u v.
+Proof. intros E. unfold has_edge, adj. now rewrite E. Qed.
+Lemma edge_attrs_succs a b u v : succs (g a) = succs (g b) -> edge_attrs a u v = edge_attrs b u v.
+Proof. intros E. unfold edge_attrs, adj. now rewrite E. Qed.
+
+Lemma fresh_upd_seg st n t idx added b st' sg :
+  do_upd_seg st n (t, idx) added = Ok b st' -> seg st = Some sg ->
+  is_node st n -> ~ In KTime (rp_act (ft st)) -> nodes_sane st sg ->
+  (forall i, (i < length (frame_of sg t))%nat -> In (Z.of_nat i) idx ->
+     label_at sg t i = n \/ (added = true /\ label_at sg t i = 0)) ->
+  mask_of (paint_arr sg t idx (if added then n else 0)) (time_of st n) n <> [] ->
+  (rp_fresh st -> rp_fresh st') /\ (edges_sane st -> iou_fresh st -> iou_fresh st').
+Proof.
+  intros Hdo Hs Hn Hkt Hsane Hidx Hne.
+  destruct (upd_seg_effect _ _ _ _ _ _ _ _ Hdo Hs) as (Hfok & Hseg & Hft & Hkeep).
+  apply do_upd_seg_ok in Hdo. destruct Hdo as (st1 & Hsp & Hst').
+  apply set_pixels_ok in Hsp. destruct Hsp as (sg0 & Hs0 & _ & ->). rewrite Hs in Hs0. injection Hs0 as <-. cbn [fst snd] in *.
+  set (v := if added then n else 0) in *. set (sg' := paint_arr sg t idx v) in *. set (s1 := upd_seg st (Some sg')) in *.
+  assert (Hs1 : seg s1 = Some sg') by reflexivity.
+  set (s2 := rp_update s1 n) in *.
+  assert (Htouch : only_touches sg t idx n).
+  { intros i Hi Hin. destruct (Hidx i Hi Hin) as [E|[_ E]]; auto. }
+  assert (HT : forall m, time_of st' m = time_of st m) by (intros m; now apply (nodes_keep_time _ _ _ m Hkt Hkeep)).
+  assert (HN : forall m, is_node st' m <-> is_node st m) by (intros m; apply (nodes_keep_is_node _ _ _ m Hkeep)).
+  assert (Hn0 : n <> 0) by (now destruct (Hsane n Hn)).
+  assert (HM : forall m, is_node st m -> m <> n -> mask_of sg' (time_of st m) m = mask_of sg (time_of st m) m).
+  { intros m Hm Hmn. eapply sane_mask_other; eauto. unfold v. destruct added; [exact Hmn|now destruct (Hsane m Hm)]. }
+  assert (Hg2 : nodes (g st') = nodes (g s2)) by (rewrite Hst'; apply iou_update_nodes).
+  destruct (rp_update_graph_only s1 n) as (_ & G2 & G3). fold s2 in G2, G3.
+  split.
+  - intros Hrp. unfold rp_fresh in *. rewrite Hseg. rewrite Hs in Hrp. rewrite Hft. intros m k Hm Hk. apply HN in Hm.
+    assert (Ea : attr st' m k = attr s2 m k) by (unfold attr, node_attrs; now rewrite Hg2).
+    rewrite Ea. unfold s2. rewrite (rp_update_unfold _ _ _ Hs1), set_keys_attr. rewrite HT.
+    destruct (Z.eqb_spec m n) as [->|Hmn]; cbn [andb].
+    + assert (Hk' : memz k (rp_act (ft s1)) = true) by (apply memz_In; exact Hk). rewrite Hk'.
+      assert (Hh : has_node s1 n = true) by (apply is_node_haskey; exact Hn). rewrite Hh. cbn [andb].
+      change (time_of s1 n) with (time_of st n). destruct (mask_of sg' (time_of st n) n); [congruence|reflexivity].
+    + change (attr s1 m k) with (attr st m k). rewrite HM by assumption. now apply Hrp.
+  - intros Hes Hio. unfold iou_fresh in *. rewrite Hseg. rewrite Hs in Hio. rewrite Hft. intros Hact u w He.
+    assert (Hs2 : seg s2 = Some sg') by (unfold s2; destruct (rp_update_graph_only s1 n) as (E & _); now rewrite E).
+    assert (Ha2 : iou_act (ft s2) = true) by (rewrite G2; exact Hact).
+    destruct (iou_update_spec s2 sg' (upd_seg_edges s2 n) Hs2 Ha2) as (U1 & U2 & U3). rewrite <- Hst' in U1, U2, U3.
+    assert (He2 : has_edge s2 u w = true) by (rewrite <- U1; exact He).
+    assert (He0 : edge st u w) by (unfold edge; rewrite <- He2; apply has_edge_succs; symmetry; exact G3).
+    destruct (Hes u w He0) as [Hu Hw].
+    destruct (in_dec (fun x y : Z * Z => ltac:(decide equality; apply Z.eq_dec)) (u, w) (upd_seg_edges s2 n)) as [Hin|Hnin].
+    + rewrite (U2 u w Hin He2). f_equal. apply iou_of_nodes. now symmetry.
+    + assert (Hun : u <> n).
+      { intros ->. apply Hnin. unfold upd_seg_edges. apply in_app_iff. right. apply in_map_iff. exists w. split; [reflexivity|].
+        unfold successors. apply haskey_keys. exact He2. }
+      assert (Hwn : w <> n).
+      { intros ->. apply Hnin. unfold upd_seg_edges. apply in_app_iff. left. apply in_map_iff. exists u. split; [reflexivity|].
+        unfold predecessors. apply filter_In. split; [|exact He2].
+        destruct (rp_update_keep s1 n) as [Hid _]. fold s2 in Hid. unfold node_ids in Hid. rewrite Hid. exact Hu. }
+      rewrite (U3 u w Hnin). rewrite (edge_attrs_succs s2 st u w G3). rewrite (Hio Hact u w He0). f_equal.
+      symmetry. apply iou_of_ext; auto.
+Qed.
+
+(* ================================================================== *)
+(* AddEdge / DeleteEdge                                                  *)
+(* ================================================================== *)
+Lemma rp_fresh_same st st' : seg st' = seg st -> ft st' = ft st -> nodes (g st') = nodes (g st) -> rp_fresh st -> rp_fresh st'.
+Proof.
+  intros E1 E2 E3. unfold rp_fresh, is_node, node_ids, time_of, zattr, attr, node_attrs. rewrite E1, E2, E3. auto.
+Qed.
+
+Lemma fresh_add_edge st u v a b st' : do_add_edge st u v a = Ok b st' ->
+  (rp_fresh st -> rp_fresh st') /\ (iou_fresh st -> iou_fresh st').
+Proof.
+  intros Hdo. destruct (add_edge_effect st u v a) as (E1 & E2 & E3). rewrite Hdo in E1, E2, E3. cbn [rstate] in *.
+  split; [now apply rp_fresh_same|].
+  unfold do_add_edge in Hdo. destruct (negb (has_node st u)); [discriminate|]. destruct (negb (has_node st v)); [discriminate|].
+  injection Hdo as _ Hst'.
+  set (s1 := upd_g st {| nodes := nodes (g st); succs := set u (set v (update (edge_attrs st u v) a) (adj st u)) (succs (g st)) |}) in *.
+  destruct (edge_put st s1 u v (update (edge_attrs st u v) a) eq_refl) as [P1 P2].
+  intros Hio. unfold iou_fresh in *. rewrite E1. destruct (seg st) as [sg|] eqn:Hs; [|exact I]. rewrite E2. intros Hact x y He.
+  assert (Hs1 : seg s1 = Some sg) by exact Hs. assert (Ha1 : iou_act (ft s1) = true) by exact Hact.
+  destruct (iou_update_spec s1 sg [(u, v)] Hs1 Ha1) as (U1 & U2 & U3). rewrite Hst' in U1, U2, U3.
+  assert (Hnodes : iou_of st' sg x y = iou_of st sg x y) by (now apply iou_of_nodes).
+  unfold edge in He. rewrite U1, P1 in He.
+  destruct (Z.eq_dec x u) as [Exu|Hxu]; [destruct (Z.eq_dec y v) as [Eyv|Hyv]|].
+  - subst x y. rewrite (U2 u v); [|now left|rewrite P1, !Z.eqb_refl; reflexivity]. f_equal. rewrite Hnodes. now apply iou_of_nodes.
+  - assert (Eb : (y =? v) = false) by (now apply Z.eqb_neq). rewrite Eb, andb_false_r in He. cbn [orb] in He.
+    rewrite U3 by (intros [E|[]]; injection E as _ E; congruence). rewrite P2, Eb, andb_false_r. rewrite Hnodes. now apply Hio.
+  - assert (Eb : (x =? u) = false) by (now apply Z.eqb_neq). rewrite Eb in He. cbn [andb orb] in He.
+    rewrite U3 by (intros [E|[]]; injection E as E _; congruence). rewrite P2, Eb. cbn [andb]. rewrite Hnodes. now apply Hio.
+Qed.
+
+Lemma fresh_del_edge st u v b st' : do_del_edge st u v = Ok b st' ->
+  (rp_fresh st -> rp_fresh st') /\ (iou_fresh st -> iou_fresh st').
+Proof.
+  intros Hdo. destruct (del_edge_effect st u v) as (E1 & E2 & E3). rewrite Hdo in E1, E2, E3. cbn [rstate] in *.
+  split; [now apply rp_fresh_same|].
+  unfold do_del_edge in Hdo. destruct (negb (has_edge st u v)); [discriminate|]. injection Hdo as _ Hst'.
+  destruct (edge_drop st st' u v) as [P1 P2]; [now rewrite <- Hst'|].
+  intros Hio. unfold iou_fresh in *. rewrite E1. destruct (seg st) as [sg|] eqn:Hs; [|exact I]. rewrite E2. intros Hact x y He.
+  unfold edge in He. rewrite P1 in He. apply andb_true_iff in He. destruct He as [Hne He].
+  rewrite P2.
+  - rewrite (iou_of_nodes st st' sg x y E3). now apply Hio.
+  - intros [-> ->]. rewrite !Z.eqb_refl in Hne. discriminate.
+Qed.
+
+(* ================================================================== *)
+(* UpdateNodeAttrs / UpdateTrackIDs                                      *)
+(* ================================================================== *)
+(* a transformer that keeps array, features, adjacency, node list, times and the managed node keys *)
+Lemma fresh_keep (K : Z -> Prop) st st' : graph_only st st' -> nodes_keep K st st' -> ~ K KTime ->
+  (forall k, In k (rp_act (ft st)) -> ~ K k) ->
+  (rp_fresh st -> rp_fresh st') /\ (iou_fresh st -> iou_fresh st').
+Proof.
+  intros (G1 & G2 & G3) Hk Hkt Hrpk.
+  assert (HT : forall m, time_of st' m = time_of st m) by (intros m; now apply (nodes_keep_time _ _ _ m Hkt Hk)).
+  split.
+  - intros Hrp. unfold rp_fresh in *. rewrite G1, G2. destruct (seg st) as [sg|]; [|exact I]. intros m k Hm Hkk.
+    apply (nodes_keep_is_node _ _ _ m Hk) in Hm. destruct Hk as [_ Hk]. rewrite Hk by (now apply Hrpk). rewrite HT. now apply Hrp.
+  - intros Hio. unfold iou_fresh in *. rewrite G1, G2. destruct (seg st) as [sg|]; [|exact I]. intros Hact u v He.
+    unfold edge in He. rewrite (has_edge_succs st' st u v G3) in He. rewrite (edge_attrs_succs st' st u v G3).
+    rewrite (Hio Hact u v He). f_equal. symmetry. apply iou_of_ext; auto.
+Qed.
+
+Lemma fresh_upd_attrs st n new b st' : do_upd_attrs st n new = Ok b st' ->
+  incl (rp_act (ft st)) (rp_all (ft st)) ->
+  (rp_fresh st -> rp_fresh st') /\ (iou_fresh st -> iou_fresh st').
+Proof.
+  intros Hdo Hincl. destruct (upd_attrs_effect st n new) as (E1 & E2). rewrite Hdo in E1, E2. cbn [rstate] in *.
+  eapply fresh_keep; [exact E1|exact E2| |].
+  - intros [_ Hp]. rewrite KTime_protected in Hp. discriminate.
+  - intros k Hk [_ Hp]. apply memz_false in Hp. apply Hp. unfold protected_keys. apply in_app_iff. left. now apply Hincl.
+Qed.
+
+Lemma fresh_upd_track st start newT newL b st' : do_upd_track st start newT newL = Ok b st' ->
+  ~ In KTrack (rp_act (ft st)) -> ~ In KLin (rp_act (ft st)) ->
+  (rp_fresh st -> rp_fresh st') /\ (iou_fresh st -> iou_fresh st').
+Proof.
+  intros Hdo H1 H2. destruct (upd_track_effect st start newT newL) as (E1 & E2). rewrite Hdo in E1, E2. cbn [rstate] in *.
+  eapply fresh_keep; [exact E1|exact E2|exact KTime_not_trk|]. intros k Hk [->| ->]; contradiction.
+Qed.
+
+(* ================================================================== *)
+(* DeleteNode                                                            *)
+(* ================================================================== *)
+Lemma lookup_map_snd {V W} (f : V -> W) k (d : dict V) :
+  lookup k (map (fun kv => (fst kv, f (snd kv))) d) = option_map f (lookup k d).
+Proof. induction d as [|[k' x] r IH]; cbn; [reflexivity|]. destruct (k =? k'); [reflexivity|exact IH]. Qed.
+
+Lemma fresh_del_node st n pxo b st' : do_del_node st n pxo = Ok b st' ->
+  (forall sg p, seg st = Some sg -> eff_pixels st n pxo = Some p -> nodes_sane st sg /\ only_touches sg (fst p) (snd p) n) ->
+  (rp_fresh st -> rp_fresh st') /\ (edges_sane st -> iou_fresh st -> iou_fresh st').
+Proof.
+  intros Hdo Hpx. destruct (del_node_effect _ _ _ _ _ Hdo) as (Hn & Hft & HN & HA & Heff).
+  apply do_del_node_ok in Hdo. destruct Hdo as (d & st1 & _ & Hsp & Hg & _ & _). fold (eff_pixels st n pxo) in Hsp.
+  assert (Hg1 : g st1 = g st).
+  { destruct (eff_pixels st n pxo) as [p|]; [|now injection Hsp as <-]. apply set_pixels_ok in Hsp. destruct Hsp as (sg & _ & _ & ->). reflexivity. }
+  rewrite Hg1 in Hg. clear Hsp Hg1 st1.
+  assert (HT : forall m, m <> n -> time_of st' m = time_of st m) by (intros m Hm; apply time_of_attr; now apply HA).
+  (* edges of the result: those of st that avoid n, with their attributes *)
+  assert (Hadj : forall x, adj st' x = if x =? n then [] else del n (adj st x)).
+  { intros x. unfold adj, getd. rewrite Hg. cbn [succs]. rewrite (lookup_map_snd (del n)).
+    destruct (Z.eqb_spec x n) as [->|Hx]; [now rewrite lookup_del_eq|]. rewrite lookup_del_neq by exact Hx.
+    destruct (lookup x (succs (g st))); reflexivity. }
+  assert (HE : forall x y, has_edge st' x y = negb (x =? n) && negb (y =? n) && has_edge st x y).
+  { intros x y. unfold has_edge. rewrite Hadj. destruct (Z.eqb_spec x n); cbn [negb andb]; [reflexivity|]. apply haskey_del. }
+  assert (HEA : forall x y, x <> n -> y <> n -> edge_attrs st' x y = edge_attrs st x y).
+  { intros x y Hx Hy. unfold edge_attrs. rewrite Hadj. destruct (Z.eqb_spec x n); [contradiction|]. now apply getd_del_neq. }
+  (* masks of the surviving nodes *)
+  assert (HM : forall sg sg', seg st = Some sg -> seg st' = Some sg' -> forall m, is_node st m -> m <> n ->
+                 mask_of sg' (time_of st m) m = mask_of sg (time_of st m) m).
+  { intros sg sg' Hs Hs' m Hm Hmn. destruct (eff_pixels st n pxo) as [p|] eqn:Ep.
+    - destruct Heff as (sg0 & Hs0 & Hfok & Hs1). rewrite Hs in Hs0. injection Hs0 as <-. rewrite Hs' in Hs1. injection Hs1 as ->.
+      destruct (Hpx sg p Hs eq_refl) as [Hsane Htouch]. eapply sane_mask_other; eauto. now destruct (Hsane m Hm).
+    - rewrite Heff, Hs in Hs'. now injection Hs' as ->. }
+  split.
+  - intros Hrp. unfold rp_fresh in *. destruct (seg st') as [sg'|] eqn:Hs'; [|exact I].
+    destruct (seg st) as [sg|] eqn:Hs.
+    2:{ destruct (eff_pixels st n pxo); [destruct Heff as (? & ? & _); discriminate|congruence]. }
+    rewrite Hft. intros m k Hm Hk. apply HN in Hm. destruct Hm as [Hmn Hm].
+    rewrite HA, HT by exact Hmn. rewrite (HM sg sg' eq_refl eq_refl m Hm Hmn). now apply Hrp.
+  - intros Hes Hio. unfold iou_fresh in *. destruct (seg st') as [sg'|] eqn:Hs'; [|exact I].
+    destruct (seg st) as [sg|] eqn:Hs.
+    2:{ destruct (eff_pixels st n pxo); [destruct Heff as (? & ? & _); discriminate|congruence]. }
+    rewrite Hft. intros Hact x y He. unfold edge in He. rewrite HE in He.
+    apply andb_true_iff in He. destruct He as [He He0]. apply andb_true_iff in He. destruct He as [Hx Hy].
+    assert (x <> n) by (intros ->; now rewrite Z.eqb_refl in Hx). assert (y <> n) by (intros ->; now rewrite Z.eqb_refl in Hy).
+    destruct (Hes x y He0) as [Hxn Hyn].
+    rewrite HEA by assumption. rewrite (Hio Hact x y He0). f_equal. symmetry.
+    apply iou_of_ext; auto; apply (HM sg sg' eq_refl eq_refl); assumption.
+Qed.
+
+(* DeleteNode without pixels: the node's own mask is cleared, nothing else is touched *)
+Lemma fresh_del_node_own st n b st' : do_del_node st n None = Ok b st' -> W_seg st ->
+  (rp_fresh st -> rp_fresh st') /\ (edges_sane st -> iou_fresh st -> iou_fresh st').
+Proof.
+  intros Hdo HW. apply (fresh_del_node _ _ _ _ _ Hdo). intros sg p Hs Ep. split; [now apply W_seg_nodes_sane|].
+  cbn [eff_pixels] in Ep. rewrite (get_pixels_spec _ _ _ Hs) in Ep. injection Ep as <-. cbn [fst snd].
+  intros i Hi Hin. right. apply mask_of_In_nat in Hin. tauto.
+Qed.
+
+(* ================================================================== *)
+(* What iou_of computes: |A n B| / |A u B| of the two masks, each in its own frame *)
+(* ================================================================== *)
+Lemma filter_partition_length {A} (f : A -> bool) (l : list A) :
+  (length (filter f l) + length (filter (fun x => negb (f x)) l) = length l)%nat.
+Proof. induction l as [|x r IH]; cbn; [reflexivity|]. destruct (f x); cbn; lia. Qed.
+
+Lemma NoDup_same_length (l l' : list Z) : NoDup l -> NoDup l' -> (forall x, In x l <-> In x l') -> length l = length l'.
+Proof.
+  intros H1 H2 He. apply Nat.le_antisymm; apply NoDup_incl_length; try assumption; intros x Hx; now apply He.
+Qed.
+
+Lemma NoDup_app_disj (l l' : list Z) : NoDup l -> NoDup l' -> (forall x, In x l -> In x l' -> False) -> NoDup (l ++ l').
+Proof.
+  induction l as [|y r IH]; cbn; intros H1 H2 Hd; [exact H2|]. inversion H1 as [|? ? Hy Hr]; subst. constructor.
+  - rewrite in_app_iff. intros [H|H]; [contradiction|]. apply (Hd y); [now left|exact H].
+  - apply IH; [exact Hr|exact H2|]. intros x Hx. apply Hd. now right.
+Qed.
+
+Lemma filter_memz_nil (a : list Z) : filter (fun x => memz x []) a = [].
+Proof. induction a as [|x r IH]; cbn; [reflexivity|exact IH]. Qed.
+
+Theorem iou_of_spec st sg u v :
+  let A := mask_of sg (time_of st u) u in
+  let B := mask_of sg (time_of st v) v in
+  exists I U : list Z,
+    NoDup I /\ NoDup U /\
+    (forall p, In p I <-> In p A /\ In p B) /\
+    (forall p, In p U <-> In p A \/ In p B) /\
+    (length U + length I = length A + length B)%nat /\
+    iou_of st sg u v = if (length I =? 0)%nat then VIou 0 1 else VIou (Z.of_nat (length I)) (Z.of_nat (length U)).
+Proof.
+  intros A B. assert (HA : NoDup A) by apply mask_of_NoDup. assert (HB : NoDup B) by apply mask_of_NoDup.
+  set (I := filter (fun x => memz x B) A). set (U := A ++ filter (fun x => negb (memz x A)) B).
+  assert (HI : forall p, In p I <-> In p A /\ In p B).
+  { intros p. unfold I. rewrite filter_In, memz_In. tauto. }
+  assert (HU : forall p, In p U <-> In p A \/ In p B).
+  { intros p. unfold U. rewrite in_app_iff, filter_In. split.
+    - intros [H|[H _]]; auto.
+    - intros [H|H]; [now left|]. destruct (in_dec Z.eq_dec p A) as [Hi|Hn]; [now left|right]. split; [exact H|].
+      apply memz_false in Hn. now rewrite Hn. }
+  assert (HndI : NoDup I) by (apply NoDup_filter; exact HA).
+  assert (HndU : NoDup U).
+  { unfold U. apply NoDup_app_disj; [exact HA|now apply NoDup_filter|].
+    intros x Hx Hf. apply filter_In in Hf. destruct Hf as [_ Hf]. apply memz_In in Hx. rewrite Hx in Hf. discriminate. }
+  assert (Hcard : (length U + length I = length A + length B)%nat).
+  { assert (H1 : length I = length (filter (fun x => memz x A) B)).
+    { apply NoDup_same_length; [exact HndI|now apply NoDup_filter|]. intros x. rewrite HI, filter_In, memz_In. tauto. }
+    assert (H2 := filter_partition_length (fun x => memz x A) B). unfold U. rewrite app_length. lia. }
+  exists I, U. repeat (split; [assumption|]).
+  unfold iou_of. fold A B. unfold inter_count. fold I.
+  destruct A as [|a0 A'] eqn:EA; [reflexivity|]. destruct B as [|b0 B'] eqn:EB.
+  - assert (EI : I = []) by (unfold I; apply filter_memz_nil). rewrite EI. reflexivity.
+  - rewrite <- EA, <- EB in *. destruct (length I) as [|k] eqn:El; [reflexivity|].
+    assert (E0 : (Z.of_nat (S k) =? 0) = false) by (apply Z.eqb_neq; lia). rewrite E0. cbn [Nat.eqb]. f_equal. lia.
+Qed.
